@@ -288,3 +288,163 @@ func (e *Enc) instrWrites(in ssa.Instruction, f *Frame) []string {
 	}
 	return e.keyNames(keys)
 }
+
+// ---------------------------------------------------------------------------
+// may-read analysis (for the determinism axiom of functions declared pure)
+
+var mayReadCache = map[*ssa.Function]map[string]hkey{}
+var externReads = map[string]func(fn *ssa.Function) []hkey{}
+
+func directReads(in ssa.Instruction) []hkey {
+	switch in := in.(type) {
+	case *ssa.UnOp:
+		if in.Op.String() == "*" {
+			return rootKeys(in.X)
+		}
+	case *ssa.Lookup:
+		if _, ok := in.X.Type().Underlying().(*types.Map); ok {
+			return []hkey{{kind: 'M', t: in.X.Type().Underlying()}}
+		}
+	case *ssa.Range:
+		if _, ok := in.X.Type().Underlying().(*types.Map); ok {
+			return []hkey{{kind: 'M', t: in.X.Type().Underlying()}}
+		}
+	case *ssa.Call:
+		if bi, ok := in.Call.Value.(*ssa.Builtin); ok {
+			switch bi.Name() {
+			case "len":
+				if _, ok := in.Call.Args[0].Type().Underlying().(*types.Map); ok {
+					return []hkey{{kind: 'M', t: in.Call.Args[0].Type().Underlying()}}
+				}
+			case "append", "copy":
+				var out []hkey
+				for _, a := range in.Call.Args {
+					if sl, ok := a.Type().Underlying().(*types.Slice); ok {
+						out = append(out, hkey{kind: 'A', t: sl.Elem()})
+					}
+				}
+				return out
+			}
+		}
+	}
+	return nil
+}
+
+func mayReadKeys(prog *ssa.Program, fn *ssa.Function) map[string]hkey {
+	if r, ok := mayReadCache[fn]; ok {
+		return r
+	}
+	visited := map[*ssa.Function]bool{}
+	res := map[string]hkey{}
+	var visit func(f *ssa.Function)
+	visit = func(f *ssa.Function) {
+		if visited[f] {
+			return
+		}
+		visited[f] = true
+		if ks, ok := externReads[f.String()]; ok {
+			for _, k := range ks(f) {
+				res[k.id()] = k
+			}
+			return
+		}
+		if f.Blocks == nil || (!inModule(f) && f.Synthetic == "") {
+			return
+		}
+		for _, b := range f.Blocks {
+			for _, in := range b.Instrs {
+				for _, k := range directReads(in) {
+					res[k.id()] = k
+				}
+				var cc *ssa.CallCommon
+				switch in := in.(type) {
+				case *ssa.Call:
+					cc = &in.Call
+				case *ssa.Defer:
+					cc = &in.Call
+				case *ssa.MakeClosure:
+					visit(in.Fn.(*ssa.Function))
+				}
+				if cc != nil {
+					cs, dyn := calleesOf(prog, cc)
+					if dyn {
+						res["*"] = hkey{kind: '*'}
+					}
+					for _, c := range cs {
+						visit(c)
+					}
+				}
+			}
+		}
+	}
+	visit(fn)
+	mayReadCache[fn] = res
+	return res
+}
+
+func (e *Enc) mayReadNames(fn *ssa.Function) []string {
+	keys := mayReadKeys(e.prog, fn)
+	if _, all := keys["*"]; all {
+		fail("pure function %s makes dynamic calls", fn)
+	}
+	return e.keyNames(keys)
+}
+
+// mapReadsOnParams: every read of a map of (underlying) type mt in the cone of fn is applied
+// directly to a parameter of the function performing the read, and map-typed values of that type
+// passed on to callees are parameters too. Then the function depends on the map heap only through
+// the contents of the map objects it was given.
+func mapReadsOnParams(prog *ssa.Program, fn *ssa.Function, mt types.Type) bool {
+	visited := map[*ssa.Function]bool{}
+	ok := true
+	isParam := func(v ssa.Value) bool {
+		_, p := v.(*ssa.Parameter)
+		return p
+	}
+	var visit func(f *ssa.Function)
+	visit = func(f *ssa.Function) {
+		if visited[f] || !ok {
+			return
+		}
+		visited[f] = true
+		if f.Blocks == nil || (!inModule(f) && f.Synthetic == "") {
+			return
+		}
+		for _, b := range f.Blocks {
+			for _, in := range b.Instrs {
+				switch in := in.(type) {
+				case *ssa.Lookup:
+					if types.Identical(in.X.Type().Underlying(), mt) && !isParam(in.X) {
+						ok = false
+					}
+				case *ssa.Range:
+					if types.Identical(in.X.Type().Underlying(), mt) && !isParam(in.X) {
+						ok = false
+					}
+				case *ssa.Call:
+					if bi, isB := in.Call.Value.(*ssa.Builtin); isB && bi.Name() == "len" {
+						if types.Identical(in.Call.Args[0].Type().Underlying(), mt) && !isParam(in.Call.Args[0]) {
+							ok = false
+						}
+					}
+					for _, a := range in.Call.Args {
+						if types.Identical(a.Type().Underlying(), mt) && !isParam(a) {
+							if _, isB := in.Call.Value.(*ssa.Builtin); !isB {
+								ok = false
+							}
+						}
+					}
+					cs, dyn := calleesOf(prog, &in.Call)
+					if dyn {
+						ok = false
+					}
+					for _, c := range cs {
+						visit(c)
+					}
+				}
+			}
+		}
+	}
+	visit(fn)
+	return ok
+}
